@@ -139,18 +139,23 @@ int main(void) {
 			struct arg args[MAXARGS];
 			char *op;
 			int n;
+			static char obuf[1 << 22];
 			alarm(60);	/* a parser that does not terminate is reported as FAULT signal 14, not left running */
+			/* the answer is written in one piece at the end: a child that dies leaves nothing behind, so the
+			 * parent's FAULT line is the one and only answer line of that request (answers stay aligned with requests) */
+			setvbuf(stdout, obuf, _IOFBF, sizeof(obuf));
 			n = parse_req(line, &op, args);
 			if (n == 2 && strcmp(op, "lextrace") == 0) op_lextrace(args, stdout);
 			else if (n >= 2 && n % 2 == 0 && strcmp(op, "conf") == 0) op_conf(args, n, stdout);
 			else fputs("BADOP", stdout);
 			fputc('\n', stdout);
 			fflush(stdout);
+			HARNESS_GCOV_DUMP();
 			_exit(0);
 		}
 		waitpid(pid, &status, 0);
-		if (WIFSIGNALED(status)) printf("\nFAULT signal %d\n", WTERMSIG(status));
-		else if (WEXITSTATUS(status) != 0) printf("\nFAULT exit %d\n", WEXITSTATUS(status));
+		if (WIFSIGNALED(status)) printf("FAULT signal %d\n", WTERMSIG(status));
+		else if (WEXITSTATUS(status) != 0) printf("FAULT exit %d\n", WEXITSTATUS(status));
 		fflush(stdout);
 	}
 	{
